@@ -1589,7 +1589,16 @@ class Compiler:
         yield EmitText(node.prefix + node.name + node.suffix)
 
     def visit_Attribute(self, node):
-        attr_format = (node.space + node.name + node.eq +
+        eq = node.eq
+        bare = None
+        if node.quote and not eq:
+            # The attribute was written without a value (and is given
+            # a computed one): a value needs the equals sign, an empty
+            # one is written the way the attribute was.
+            eq = "="
+            bare = node.space + node.name
+
+        attr_format = (node.space + node.name + eq +
                        node.quote + "%s" + node.quote)
 
         filter_args = list(map(self._engine.cache.get, node.filters))
@@ -1611,6 +1620,8 @@ class Compiler:
             and isinstance(node.expression.value, str)
         ):
             s = attr_format % node.expression.value
+            if bare is not None and not node.expression.value:
+                s = bare
             if node.filters:
                 return template(
                     "if C: __append(S)", C=filter_condition, S=ast.Constant(s)
@@ -1627,6 +1638,15 @@ class Compiler:
             condition = ast.BoolOp(
                 values=[condition, filter_condition],
                 op=ast.And(),
+            )
+
+        if bare is not None:
+            return body + template(
+                "if CONDITION: __append(FORMAT % TARGET if TARGET else BARE)",
+                FORMAT=ast.Constant(attr_format),
+                BARE=ast.Constant(bare),
+                TARGET=target,
+                CONDITION=condition,
             )
 
         return body + template(
